@@ -99,3 +99,54 @@ def rewrite_equal_sums(expr, target):
     if not subs:
         return expr
     return z3.simplify(z3.substitute(expr, *subs))
+
+
+def sum_bound(total_f, info_f, total_g, lo_coef, hi_coef, label="sum-bound"):
+    """lemma: if lo*g(t) <= f(t) <= hi*g(t) for every t (finite values) then lo*SUM g <= SUM f <= hi*SUM g.
+    f, g are given by their SumInfo-like (extents, summand) pairs; the point-wise premise is checked at a skolem
+    index and recorded as a `lemma` obligation; only then is the conclusion added as a fact."""
+    c = cur()
+    ext_f, fn_f = info_f
+    ext_g, fn_g = total_g[1]
+    ts = tuple(c.fresh_int("tb") for _ in ext_f)
+    rng = sym.And_(*[sym.And_(zi(t) >= 0, zi(t) < zi(n)) for t, n in zip(ts, ext_f)])
+    c.numpy_mode += 1
+    try:
+        f = sym.toF(fn_f(ts))
+        g = sym.toF(fn_g(ts))
+    finally:
+        c.numpy_mode -= 1
+    goal = sym.Implies_(rng, sym.And_(sym.Not_(f.nan), sym.Not_(g.nan), lo_coef * g.v <= f.v, f.v <= hi_coef * g.v))
+    ok = c.is_valid_full(zb(goal), 60000)
+    if ok:
+        c.oblige("lemma", label, goal)
+        F_, G_ = sym.toF(total_f), sym.toF(total_g[0])
+        c.fact(z3.And(lo_coef * G_.v <= F_.v, F_.v <= hi_coef * G_.v))
+    return ok
+
+
+def prove_then_assume(label, formula, timeout_ms=20000, heavy=True):
+    """a proof step: `formula` is checked under the full path condition; it is recorded as a `lemma` obligation
+    and, only if the check succeeded, added as a fact for the steps that follow.  Returns whether it was proved."""
+    c = cur()
+    ok = c.is_valid_full(zb(formula), timeout_ms)
+    c.oblige("lemma", label, formula)
+    if ok:
+        c.fact(formula, heavy=heavy)
+    return ok
+
+
+def universal(label, variables, formula):
+    """A stand-alone lemma `forall variables. formula` (no program symbols): recorded once as a `lemma` obligation with
+    an empty context, and used by substitution - an instance needs no further proof (universal instantiation)."""
+    from .core import Obligation
+    c = cur()
+    o = Obligation(f"{c.tag}/lemma.{label}", "lemma", label, [], formula, {"universal": True},
+                   "".join("T" if d else "F" for d in c.decisions))
+    c.obls.append(o)
+
+    def inst(*terms, heavy=True):
+        f = z3.substitute(formula, *list(zip(variables, terms)))
+        c.fact(f, heavy=heavy)
+        return f
+    return inst
